@@ -218,7 +218,31 @@ pub fn pool_wrap() {
             return;
         }
     }
-    let total = 66_000 + tape::choose(site::GEOM, 3000);
+    // Variant: the 16-bit buffer-group id generator wraps while this pool is
+    // alive; the colliding registration fails (EEXIST) and must leave this
+    // pool alone.
+    let id_wrap = tape::chance(site::GEOM, 1, 2);
+    if id_wrap {
+        let mut refused = 0u32;
+        for _ in 0..65_540u32 {
+            match alloc::a10(|| a10::io::ReadBufPool::new(w.sq.clone(), 1, 8)) {
+                Ok(p) => alloc::a10(|| drop(p)),
+                Err(e) if e.raw_os_error() == Some(libc::EEXIST) => refused += 1,
+                Err(e) => {
+                    report::harness_error(format!("short-lived pool: {e}"));
+                    return;
+                }
+            }
+        }
+        crate::ev!("h {refused} pool registration(s) refused with EEXIST (group id in use)");
+        if refused > 0 {
+            stats::inc(stats::C::probe_pool_id_collision);
+        }
+        for v in alloc::take_violations() {
+            report::violation(v.class, v.detail);
+        }
+    }
+    let total = if id_wrap { 40 } else { 66_000 + tape::choose(site::GEOM, 3000) };
     let mut held: Vec<a10::io::ReadBuf> = Vec::new();
     let wk = std::task::Waker::noop();
     for i in 0..total {
